@@ -887,6 +887,12 @@ func gen(seed uint64, n int, outDir, corpusDir string) {
 		b, _ := hex.DecodeString(h.Bytes)
 		if h.Type == "interface" {
 			g.itemCase(b)
+		} else if h.Mode == "vrf-handler" {
+			res, pan := runVrfHandleMsg(b)
+			g.vrfObs("corpus", "corpus", b, res, pan)
+			if pan == "" && h.Expect == "reject" && res != "reject" {
+				g.hit(hit{What: "regression:repaired-finding-accepted-again:HandleMsg", Type: h.Type, Mode: h.Mode, Bytes: h.Bytes, Note: h.Note})
+			}
 		} else if e := entryByName(h.Type); e != nil && h.Mode == "stream" {
 			g.streamCase(e, b, "corpus")
 		} else if e := entryByName(h.Type); e != nil {
@@ -930,7 +936,17 @@ func gen(seed uint64, n int, outDir, corpusDir string) {
 			}
 		}
 	}
+	// types whose hand-written coder differs from the pinned inventory get ten times the budget
+	boost := changedCoders()
+	for _, e := range entries {
+		if boost[e.t.Name()] || boost[e.name] {
+			e.weight *= 10
+			g.res.Count("boosted_type:" + e.name)
+		}
+	}
+	g.sweepCampaign(boost)
 	handlerCampaign(g, n/4+50)
+	g.vrfCampaign()
 	g.sizeCampaign(seed, n/5+80, outDir)
 
 	var sb strings.Builder
@@ -998,6 +1014,10 @@ func replay(file string) {
 	switch {
 	case h.Type == "interface":
 		g.itemCase(b)
+	case h.Mode == "vrf-handler":
+		res, pan := runVrfHandleMsg(b)
+		fmt.Println("result:", res, "panic:", pan)
+		g.vrfObs("replay", "corpus", b, res, pan)
 	case strings.HasPrefix(h.Type, "handler:"):
 		replayHandler(g, h)
 	case strings.HasPrefix(h.What, "encoder-reader-path-differs") || strings.HasPrefix(h.What, "encoder-writer-path-differs"):
@@ -1075,6 +1095,12 @@ func main() {
 		schemasCmd(*out)
 	case "callsites":
 		callSitesCmd(*out)
+	case "vrfwitness":
+		vrfWitnessCmd()
+	case "codercalls": // prints the inventory in the format of coder_calls_golden.go
+		for _, p := range collectCoderCalls() {
+			fmt.Printf("%s\t%s\n", p[0], p[1])
+		}
 	case "sizeattack":
 		sizeAttackChild(*seed, *n, *out)
 	case "replay":
